@@ -103,6 +103,9 @@ def build_world(spec):
     for i, n in enumerate(spec.get("nodes", [])):
         hp = wp(n["p"])
         t = n["t"]
+        if len(os.fsencode(hp)) > 3500:
+            _build_long(hp, n, n.get("mt", T0 + i))
+            continue
         parent = os.path.dirname(hp)
         if not os.path.isdir(parent):
             mkdirs(parent)
@@ -142,26 +145,79 @@ def build_world(spec):
     os.utime(W, (T0 - 2000, T0 - 2000))
 
 
+def _build_long(hp, n, mt):
+    """create a node whose absolute path exceeds PATH_MAX: walk down with directory fds"""
+    comps = [c for c in hp[len(W):].split("/") if c]
+    dfd = os.open(W, os.O_RDONLY | os.O_DIRECTORY)
+    try:
+        for c in comps[:-1]:
+            try:
+                os.mkdir(c, 0o755, dir_fd=dfd)
+                os.utime(c, (T0 - 1000, T0 - 1000), dir_fd=dfd)
+            except FileExistsError:
+                pass
+            nfd = os.open(c, os.O_RDONLY | os.O_DIRECTORY | os.O_NOFOLLOW, dir_fd=dfd)
+            os.close(dfd)
+            dfd = nfd
+        name, t = comps[-1], n["t"]
+        try:
+            os.lstat(name, dir_fd=dfd)
+            exists = True
+        except FileNotFoundError:
+            exists = False
+        if exists and t != "d":
+            return
+        if t == "d":
+            if not exists:
+                os.mkdir(name, 0o755, dir_fd=dfd)
+            os.chmod(name, n.get("m", 0o755), dir_fd=dfd)
+        elif t in ("f", "b"):
+            if t == "b":
+                data = bytes(n["b"])
+            else:
+                try:
+                    data = n.get("c", "").encode("latin-1") * n.get("rep", 1)
+                except UnicodeEncodeError:
+                    data = n.get("c", "").encode("utf-8", "surrogateescape") * n.get("rep", 1)
+            fd = os.open(name, os.O_WRONLY | os.O_CREAT | os.O_EXCL, 0o644, dir_fd=dfd)
+            try:
+                os.write(fd, data)
+            finally:
+                os.close(fd)
+            os.chmod(name, n.get("m", 0o644), dir_fd=dfd)
+        elif t == "l":
+            os.symlink(n["to"], name, dir_fd=dfd)
+        else:
+            raise HarnessError("bad node type %r" % (t,))
+        os.utime(name, (mt, mt), dir_fd=dfd, follow_symlinks=False)
+    finally:
+        os.close(dfd)
+
+
 Node = namedtuple("Node", "t mode size sha target mtime dev ino nlink")
 
 
-def _node(hp):
-    st = os.lstat(hp)
+def _node(dfd, name):
+    """lstat-level description of the entry `name` of the directory open at dfd"""
+    st = os.lstat(name, dir_fd=dfd)
     m = st.st_mode
     if stat.S_ISLNK(m):
-        return Node("l", stat.S_IMODE(m), 0, None, fsdec(os.fsencode(os.readlink(hp))),
+        return Node("l", stat.S_IMODE(m), 0, None, fsdec(os.fsencode(os.readlink(name, dir_fd=dfd))),
                     st.st_mtime_ns, st.st_dev, st.st_ino, st.st_nlink)
     if stat.S_ISDIR(m):
         return Node("d", stat.S_IMODE(m), 0, None, None, st.st_mtime_ns,
                     st.st_dev, st.st_ino, st.st_nlink)
     if stat.S_ISREG(m):
         h = hashlib.sha256()
-        with open(hp, "rb") as f:
+        fd = os.open(name, os.O_RDONLY | os.O_NOFOLLOW, dir_fd=dfd)
+        try:
             while True:
-                b = f.read(1 << 20)
+                b = os.read(fd, 1 << 20)
                 if not b:
                     break
                 h.update(b)
+        finally:
+            os.close(fd)
         return Node("f", stat.S_IMODE(m), st.st_size, h.hexdigest()[:16], None,
                     st.st_mtime_ns, st.st_dev, st.st_ino, st.st_nlink)
     return Node("o", stat.S_IMODE(m), 0, None, None, st.st_mtime_ns,
@@ -169,16 +225,17 @@ def _node(hp):
 
 
 def snapshot(top="/"):
-    """{world-absolute path: Node} for everything at or below top (lstat only)."""
+    """{world-absolute path: Node} for everything at or below top (lstat only).
+
+    The walk is relative to directory file descriptors, so locations deeper than PATH_MAX
+    are seen like any other."""
     out = {}
     htop = os.fsencode(wp(top))
-    cut = len(os.fsencode(W))
 
-    def rec(hp, depth=0):
-        key = fsdec(hp[cut:]) or "/"
+    def rec(dfd, name, key, depth=0):
         try:
-            n = _node(hp)
-        except OSError as e:  # e.g. ENAMETOOLONG below a runaway recursive copy
+            n = _node(dfd, name)
+        except OSError as e:
             out[key] = Node("?", 0, 0, "errno%d" % e.errno, None, 0, 0, 0, 0)
             return
         out[key] = n
@@ -187,15 +244,26 @@ def snapshot(top="/"):
                 out[key + "/..."] = Node("?", 0, 0, "too deep", None, 0, 0, 0, 0)
                 return
             try:
-                with os.scandir(hp) as it:
-                    names = sorted(e.name for e in it)
+                fd = os.open(name, os.O_RDONLY | os.O_DIRECTORY | os.O_NOFOLLOW, dir_fd=dfd)
             except OSError:
                 return
-            for nm in names:
-                rec(hp + b"/" + nm, depth + 1)
+            try:
+                try:
+                    names = sorted(os.listdir(fd))
+                except OSError:
+                    return
+                pre = "" if key == "/" else key
+                for nm in names:
+                    rec(fd, os.fsencode(nm), pre + "/" + fsdec(os.fsencode(nm)), depth + 1)
+            finally:
+                os.close(fd)
 
     if os.path.lexists(htop):
-        rec(htop)
+        pfd = os.open(os.path.dirname(htop) or b"/", os.O_RDONLY | os.O_DIRECTORY)
+        try:
+            rec(pfd, os.path.basename(htop), top if top == "/" else top.rstrip("/"))
+        finally:
+            os.close(pfd)
     return out
 
 
